@@ -71,17 +71,35 @@ def _world():
 
 
 # ---- gamma -------------------------------------------------------------------------------------------
+TOKENS = (("{NUL}", "\x00"), ("{HI}", "\udcff"))       # model token <-> character (0xFF via surrogateescape)
+
+
+def concretise(text):
+    for tok, ch in TOKENS:
+        text = text.replace(tok, ch)
+    return text
+
+
+def abstract(text):
+    for tok, ch in TOKENS:
+        text = text.replace(ch, tok)
+    return text
+
+
 def materialise(w, gm):
     w.clear()
     d = gm["dir"].strip("/")
     base = (d + "/") if d else ""
     if d:
         w.mkdir(d)
-    # fixtures that local links may point at (existing targets are populated from the file system)
-    w.write(base + "x", b"target x\n")
-    w.write(base + "sub/y", b"target y\n")
-    w.write("abs/sub/z", b"target z\n")
-    text = "".join(l + gm["eol"] for l in gm["lines"])
+    # what local links may point at (existing targets are populated from the file system; a path THROUGH one
+    # of the regular files cannot be stat()ed)
+    for fx in gm["fixtures"]:
+        if fx["k"] == "dir":
+            w.mkdir(fx["p"])
+        else:
+            w.write(fx["p"], b"content of " + fx["p"].encode() + b"\n")
+    text = "".join(concretise(l) + gm["eol"] for l in gm["lines"])
     name = "gophermap" if gm["kind"] == "dir" else gm["sel"].rsplit("/", 1)[1]
     w.write(base + name, text)
 
@@ -104,8 +122,9 @@ def request_bytes(p, sel):
 
 
 # ---- alpha: one lexer per protocol -> rows {kind,type,name,form,sel,host,port,url} --------------------
-def _row(kind, typ, name, form, sel="", host="", port="", url=""):
-    return {"kind": kind, "type": typ, "name": name, "form": form, "sel": sel, "host": host, "port": port, "url": url}
+def _row(kind, typ, name, form, sel="", host="", port="", url="", plus=False):
+    return {"kind": kind, "type": typ, "name": abstract(name), "form": form, "sel": abstract(sel), "host": abstract(host),
+            "port": port, "url": abstract(url), "plus": plus}
 
 
 def _target(kind, name, href, strip_prefix=""):
@@ -135,7 +154,7 @@ def lex_gopher(text, plus):
         f = line.split("\t")
         if len(f) not in (4, 5) or not f[0] or (len(f) == 5 and f[4] != "+"):
             return None
-        rows.append(_row("menu", f[0][0], f[0][1:], "fields", f[1], f[2], f[3]))
+        rows.append(_row("menu", f[0][0], f[0][1:], "fields", f[1], f[2], f[3], plus=(len(f) == 5)))
     return rows
 
 
@@ -263,7 +282,7 @@ def case_key(gm):
 
 def _gm_for_trace(g):
     return {"kind": g["kind"], "sel": g["sel"], "dir": g["dir"], "lines": list(g["lines"]), "eol": g["eol"],
-            "srv": dict(g["srv"])}
+            "srv": dict(g["srv"]), "fixtures": [{"p": f["p"], "k": f["k"]} for f in g["fixtures"]]}
 
 
 def cases_from_tlc(tier):
@@ -305,7 +324,9 @@ def selftest():
     """Binding demonstration: a recorded trace is accepted; corrupting one field of one protocol's view,
     dropping a row, or dropping a whole view makes TraceC09 reject it, naming the clause."""
     gm = {"kind": "dir", "sel": "/d", "dir": "/d", "eol": "\n", "srv": dict(SERVER),
-          "lines": ["hello world", "0Rel\tx", "1NoHost\t/abs\t\t7070", "hWeb\tURL:http://h.example/p"]}
+          "lines": ["hello world", "0Rel\tx", "1NoHost\t/abs\t\t7070", "hWeb\tURL:http://h.example/p", "0Thru\tx/extra",
+                    "0Nul\tx{NUL}y"],
+          "fixtures": [{"p": "/d/x", "k": "file"}, {"p": "/abs", "k": "dir"}]}
     global _W
     _init_worker()
     try:
@@ -342,7 +363,8 @@ def main(chk, replay=None):
     if replay:                       # exactly the stored case; the model is not re-run
         with open(replay) as fp:
             rp = json.load(fp)
-        cases = [{"gm": rp["case"]["gm"], "wf": rp["case"]["wf"], "cls": rp["case"]["cls"]}]
+        cases = [{"gm": dict(rp["case"]["gm"], fixtures=rp["case"]["gm"].get("fixtures", [])), "wf": rp["case"]["wf"],
+                  "cls": rp["case"]["cls"]}]
         res = {"distinct": 0, "generated": 0, "cmd": "(replay: model not run)"}
         n_wf = int(bool(rp["case"]["wf"]))
     else:
